@@ -44,7 +44,7 @@ int aws_last_error(void) {
 
 /* an arbitrary slot index (ghost witness for "every stored entry ...") */
 static size_t any_slot(void) {
-    size_t p = nondet_size_t();
+    size_t p = ND_SIZE();
     __CPROVER_assume(p < HT_NS);
     return p;
 }
@@ -126,7 +126,7 @@ void h_create(void) {
     struct ht_snap snap;
     ht_snapshot(st, HT_NS, &snap);
     size_t idx = sp_find(st, HT_NS, key);
-    bool want_elem = nondet_bool(), want_created = nondet_bool();
+    bool want_elem = ND_BOOL(), want_created = ND_BOOL();
     struct aws_hash_element *el = (struct aws_hash_element *)&vk_alloc;
     int created = 77;
 
@@ -176,7 +176,7 @@ void h_put(void) {
 #elif defined(HT_PUT_CASE) && HT_PUT_CASE == 1
     __CPROVER_assume(idx == HT_NONE);
 #endif
-    bool want_created = nondet_bool();
+    bool want_created = ND_BOOL();
     int created = 77;
 
     int rv = aws_hash_table_put(&map, key, value, want_created ? &created : NULL);
@@ -263,7 +263,7 @@ void h_remove(void) {
     struct ht_snap snap;
     ht_snapshot(st, HT_NS, &snap);
     size_t idx = sp_find(st, HT_NS, key);
-    bool want_value = nondet_bool(), want_present = nondet_bool();
+    bool want_value = ND_BOOL(), want_present = ND_BOOL();
     struct aws_hash_element out = {&vk_alloc, &vk_alloc};
     int present = 77;
 
@@ -404,9 +404,9 @@ void h_iter_begin(void) {
 static struct aws_hash_iter any_iter(const struct aws_hash_table *map) {
     struct aws_hash_iter it;
     it.map = map;
-    it.slot = nondet_size_t();
-    it.limit = nondet_size_t();
-    int s = nondet_int();
+    it.slot = ND_SIZE();
+    it.limit = ND_SIZE();
+    int s = ND_INT();
     __CPROVER_assume(s == AWS_HASH_ITER_STATUS_DONE || s == AWS_HASH_ITER_STATUS_DELETE_CALLED || s == AWS_HASH_ITER_STATUS_READY_FOR_USE);
     it.status = (enum aws_hash_iter_status)s;
     __CPROVER_assume(it.limit <= HT_NS && (it.slot < HT_NS || it.slot == SIZE_MAX || it.slot == it.limit));
@@ -461,7 +461,7 @@ void h_iter_delete(void) {
     struct aws_hash_table map = {st};
     struct aws_hash_iter it = any_iter(&map);
     __CPROVER_assume(it.status == AWS_HASH_ITER_STATUS_READY_FOR_USE);
-    bool destroy = nondet_bool();
+    bool destroy = ND_BOOL();
     struct ht_snap snap;
     ht_snapshot(st, HT_NS, &snap);
     size_t slot0 = it.slot, limit0 = it.limit;
@@ -509,7 +509,7 @@ static int foreach_cb(void *ctx, struct aws_hash_element *el) {
     __CPROVER_assert(ctx == g_cb_ctx, "foreach: context handed through");
     if (g_cb_stopped) g_cb_after_stop = true;
     g_cb_calls++;
-    int rv = nondet_int();
+    int rv = ND_INT();
     __CPROVER_assume((rv & ~7) == 0);
 #if defined(HT_FOREACH_CASE) && HT_FOREACH_CASE == 0 /* full runs only: every callback asks to continue */
     __CPROVER_assume((rv & AWS_COMMON_HASH_TABLE_ITER_CONTINUE) && !(rv & AWS_COMMON_HASH_TABLE_ITER_ERROR));
@@ -544,7 +544,7 @@ void h_foreach(void) {
     g_cb_stopped = g_cb_error = g_cb_after_stop = false;
     g_cb_ctx = ht_any_value();
 
-    g_last_error = nondet_bool() ? 0 : AWS_ERROR_OOM;
+    g_last_error = ND_BOOL() ? 0 : AWS_ERROR_OOM;
     g_raise_count = 0;
 
     int rv = aws_hash_table_foreach(&map, foreach_cb, g_cb_ctx);
@@ -586,10 +586,10 @@ void h_foreach(void) {
 void h_init(void) {
     ht_model_init();
     struct aws_hash_table map = {NULL};
-    size_t size = nondet_size_t();
+    size_t size = ND_SIZE();
     __CPROVER_assume(size <= HT_ALLOC_SLOTS && (size > HT_ALLOC_SLOTS / 2 || HT_ALLOC_SLOTS == 2));
-    aws_hash_callback_destroy_fn *dk = nondet_bool() ? vk_destroy_key : NULL;
-    aws_hash_callback_destroy_fn *dv = nondet_bool() ? vk_destroy_value : NULL;
+    aws_hash_callback_destroy_fn *dk = ND_BOOL() ? vk_destroy_key : NULL;
+    aws_hash_callback_destroy_fn *dv = ND_BOOL() ? vk_destroy_value : NULL;
 
     int rv = aws_hash_table_init(&map, &vk_alloc, size, vk_hash, vk_eq, dk, dv);
 
@@ -616,11 +616,11 @@ void h_init(void) {
 void h_update_template_size(void) {
     struct hash_table_state tmpl;
     tmpl.max_load_factor = 0.95;
-    tmpl.size = nondet_size_t();
-    tmpl.mask = nondet_size_t();
-    tmpl.max_load = nondet_size_t();
+    tmpl.size = ND_SIZE();
+    tmpl.mask = ND_SIZE();
+    tmpl.max_load = ND_SIZE();
     size_t size0 = tmpl.size, mask0 = tmpl.mask, ml0 = tmpl.max_load;
-    size_t n = nondet_size_t();
+    size_t n = ND_SIZE();
 
     int rv = s_update_template_size(&tmpl, n);
 
